@@ -227,6 +227,46 @@ pub fn gen_lim_invalid(rng: &mut Rng) -> (Lim, i64) {
     }
 }
 
+/// a "sibling" of `l`: limits in D that agree with `l` in all fields but one, the differing field off by
+/// one, doubled, swapped between the standard periods, or off by a multiple of 2^32 (what a memo keyed
+/// on a subset, a truncation or a hash of the limits would confuse with `l`)
+pub fn sibling(rng: &mut Rng, l: &Lim) -> Lim {
+    for _ in 0..12 {
+        let big = rng.pick(&[1i64 << 32, 1 << 33, 3 << 32]);
+        let c = match rng.below(12) {
+            0 => Lim { p: l.p + 1, ..*l },
+            1 => Lim { p: (l.p - 1).max(1), ..*l },
+            2 => Lim { p: l.p.saturating_mul(rng.pick(&[2i64, 60, 3600])), ..*l },
+            3 => Lim { p: rng.pick(&[1i64, 60, 3600, 86400]), ..*l },
+            4 => Lim { c: l.c + 1, ..*l },
+            5 => Lim { c: l.c.saturating_mul(2), ..*l },
+            6 => Lim { c: l.c.saturating_add(big), ..*l },
+            7 => Lim { c: l.c.saturating_add(big), p: l.p.max(rng.pick(&[60i64, 3600, 86400])), ..*l },
+            8 => Lim { b: l.b + 1, ..*l },
+            9 => Lim { b: l.b.saturating_mul(2), ..*l },
+            10 => Lim { b: l.b.saturating_add(big), ..*l },
+            _ => Lim { b: l.c, c: l.b, ..*l },
+        };
+        if c.in_d() && c != *l {
+            return c;
+        }
+    }
+    *l
+}
+
+/// a request the limiter must REJECT that nevertheless carries plausible values in its other fields:
+/// a sibling of `l` with one invalid field, or valid sibling limits with a negative quantity
+pub fn gen_invalid_near(rng: &mut Rng, l: &Lim) -> (Lim, i64) {
+    let s = if rng.chance(1, 3) { *l } else { sibling(rng, l) };
+    match rng.below(5) {
+        0 => (Lim { b: rng.pick(&[0i64, -1]), ..s }, 1),
+        1 => (s, rng.pick(&[-1i64, -2, i64::MIN])),
+        2 => (Lim { c: rng.pick(&[0i64, -1]), ..s }, 1),
+        3 => (Lim { p: rng.pick(&[0i64, -1]), ..s }, 1),
+        _ => (Lim { b: 0, ..s }, rng.pick(&[0i64, -1])),
+    }
+}
+
 pub const KEY_POOL: &[&str] = &[
     "", "k", "k\0", "k1", "k2", "ключ", "键", "user:1", "user:10", "K", " k", "k ", "\u{7f}", "a\nb",
 ];
@@ -302,9 +342,20 @@ fn gen_qty(rng: &mut Rng, lim: &Lim, zero_pct: u64) -> i64 {
 /// Generate and execute one history on `sess`.  Keys of interest have fixed limits in D
 /// (unless `mixed_pct` chooses other limits for a request); noise keys are fresh keys.
 pub fn run_history(rng: &mut Rng, sess: &mut Session, hp: &HistParams, out: &mut Out) -> (Vec<Step>, Vec<(String, Lim)>) {
-    let keys: Vec<(String, Lim)> = (0..hp.nkeys)
-        .map(|i| (gen_key(rng, i), if rng.below(100) < hp.extreme_pct { gen_lim_extreme(rng) } else { gen_lim_d(rng) }))
-        .collect();
+    let mut keys: Vec<(String, Lim)> = Vec::with_capacity(hp.nkeys);
+    for i in 0..hp.nkeys {
+        let lim = if rng.below(100) < hp.extreme_pct {
+            gen_lim_extreme(rng)
+        } else if i > 0 && keys[0].1.in_d() && rng.chance(1, 3) {
+            // limits that differ from the first key's in exactly one field
+            out.bump("keys_with_sibling_limits");
+            sibling(rng, &keys[0].1)
+        } else {
+            gen_lim_d(rng)
+        };
+        keys.push((gen_key(rng, i), lim));
+    }
+    let keys = keys;
     let mut now = pick_base(rng);
     let mut latest = now;
     let mut steps: Vec<Step> = Vec::with_capacity(hp.steps);
@@ -315,13 +366,26 @@ pub fn run_history(rng: &mut Rng, sess: &mut Session, hp: &HistParams, out: &mut
         let next_in = sess.store.field("next").map(|n| n - latest as i128);
         let rq = if roll < hp.noise_pct {
             noise_ctr += 1;
-            let lim = gen_lim_d(rng);
+            let lim = if rng.chance(2, 5) && keys[0].1.in_d() {
+                out.bump("req_noise_sibling_limits");
+                let ki = rng.below(keys.len() as u64) as usize;
+                sibling(rng, &keys[ki].1)
+            } else {
+                gen_lim_d(rng)
+            };
+            let lim = if lim.in_d() { lim } else { gen_lim_d(rng) };
             let gap = gen_gap(rng, &lim, next_in, None);
             now = advance(rng, hp, &mut latest, now, gap);
             out.bump("req_noise");
             Rq { key: format!("n{noise_ctr}"), lim, q: gen_qty(rng, &lim, hp.zero_pct), now }
         } else if roll < hp.noise_pct + hp.invalid_pct {
-            let (lim, q) = gen_lim_invalid(rng);
+            let (lim, q) = if rng.chance(1, 2) && keys[0].1.in_d() {
+                out.bump("req_invalid_near_sibling");
+                let ki = rng.below(keys.len() as u64) as usize;
+                gen_invalid_near(rng, &keys[ki].1)
+            } else {
+                gen_lim_invalid(rng)
+            };
             let key = if rng.chance(1, 2) && !keys.is_empty() {
                 keys[rng.below(keys.len() as u64) as usize].0.clone()
             } else {
@@ -334,7 +398,11 @@ pub fn run_history(rng: &mut Rng, sess: &mut Session, hp: &HistParams, out: &mut
             Rq { key, lim, q, now }
         } else {
             let (key, klim) = keys[rng.below(keys.len() as u64) as usize].clone();
-            let lim = if rng.below(100) < hp.mixed_pct { gen_lim_d(rng) } else { klim };
+            let lim = if rng.below(100) < hp.mixed_pct {
+                if rng.chance(1, 2) && klim.in_d() { sibling(rng, &klim) } else { gen_lim_d(rng) }
+            } else {
+                klim
+            };
             let exp_in = expiry.get(&key).map(|e| *e - latest as i128);
             let gap = gen_gap(rng, &klim, next_in, exp_in);
             now = advance(rng, hp, &mut latest, now, gap);
